@@ -357,7 +357,7 @@ def Spec.wf (L : Limits) : Spec → Prop
 
 /-- what must hold of the constants (checked for the extracted ones by `decide` in Props) -/
 def Limits.ok (L : Limits) : Prop :=
-  0 < L.rabinMinFloor ∧ 0 < L.defaultBlockSize ∧ L.defaultBlockSize + L.defaultBlockSize / 2 ≤ L.chunkSizeLimit ∧
+  16 ≤ L.rabinMinFloor ∧ L.chunkSizeLimit < 2 ^ 64 ∧ 0 < L.defaultBlockSize ∧ L.defaultBlockSize + L.defaultBlockSize / 2 ≤ L.chunkSizeLimit ∧
   L.rabinMinFloor ≤ L.defaultBlockSize / 3
 
 instance (L : Limits) : Decidable L.ok := by unfold Limits.ok; infer_instance
@@ -371,6 +371,31 @@ def Spec.hi (P : BuzP) : Spec → Nat
   | .size n => n
   | .rabin _ _ mx => mx
   | .buzhash => P.max
+
+/-! ## registry (`Register`, dispatch in `FromString`) -/
+
+abbrev Registry := List (List Char)
+
+def builtinNames : Registry :=
+  [['s', 'i', 'z', 'e'], ['r', 'a', 'b', 'i', 'n'], ['b', 'u', 'z', 'h', 'a', 's', 'h']]
+
+/-- `Register(name, fn)` with a non-nil `fn`; `none` = panic (empty name, dash in the name, duplicate) -/
+def register (reg : Registry) (name : List Char) : Option Registry :=
+  if name = [] ∨ '-' ∈ name ∨ name ∈ reg then none else some (name :: reg)
+
+inductive Parsed where
+  | builtin (s : Spec)
+  | custom (name : List Char)     -- the registered SplitterFunc is called with the whole string
+  deriving DecidableEq, Repr
+
+/-- `FromString` with a registry that may contain custom chunkers -/
+def parseWith (L : Limits) (reg : Registry) (cs : List Char) : Option Parsed :=
+  if cs = [] ∨ cs = ['d', 'e', 'f', 'a', 'u', 'l', 't'] then some (.builtin (.size L.defaultBlockSize))
+  else
+    let name := (splitOn '-' cs).head!
+    if name ∈ reg then
+      if name ∈ builtinNames then (parseChars L cs).map .builtin else some (.custom name)
+    else none
 
 /-- The chunk list of the splitter `FromString(rd, spec)` returns; the rabin fingerprint automaton is a parameter
 (`blk` = chunkerBufSize, window 16). -/
